@@ -60,9 +60,12 @@ Print Assumptions C11_invariant_coherent_pair.
    with every well-formed flag word, Remove, RemoveAll, Rename incl. whole subtrees and into directories the
    cache does not hold yet, Stat, Chmod, Chown, Chtimes, and the 13 handle methods on every kind of slot), every
    cache duration, every value of time.Now(), every outcome of cacheStatus (miss / stale / hit; "local" cannot
-   arise), every file size.  [cwf_op dur now st o] (Proofs/CacheInvMain.v, computable): o is well-formed for the
-   BASE's current tree in the sense of C01 (WfOps.wf_op: the ordinary POSIX preconditions; Read/ReadAt buffer
-   length >= 0; flag words without O_APPEND), and o is not OpenFile of a base DIRECTORY that cacheStatus does
+   arise), every file size.  [cwf_op dur now st o] (Proofs/CacheInvMain.v, computable): o is in the portable class
+   of C01 for the BASE's current tree (WfOps.wf_op = wf_op_ord || wf_below: the ordinary POSIX preconditions —
+   Read/ReadAt buffer length >= 0, flag words without O_APPEND — OR a creating call whose name passes through a
+   regular file of the base: the base answers ENOTDIR; Create / Mkdir / MkdirAll / OpenFile(O_CREATE) then
+   leave both layers as they are, Rename may first have copied its source into the layer, which keeps the
+   invariant: C11_ex_below_file), and o is not OpenFile of a base DIRECTORY that cacheStatus does
    not serve as a hit — the one call outside the class, a defect of cacheOnReadFs.go: C11_openfile_uncached_dir_refuted. *)
 Theorem C11_invariant_step :
   forall (dur now : Z) (st : mst * mst * list chandle) (o : op),
@@ -303,3 +306,15 @@ Example C11_openfile_uncached_dir_refuted :
 Proof.
   exists (c11_base, m_init, []), (OpenFile p_d 0 0). split; [exact C11_ex_start|]. vm_compute. repeat split; reflexivity.
 Qed.
+
+(* ---- the calls below a regular file of the base are in the class: /g is a regular file; Create(/g/x) through the
+   cache answers ENOTDIR and nothing changes; Rename(/d/f, /g/x) answers ENOTDIR after /d/f has been copied into
+   the cache layer (copyToLayer comes before the base's Rename) ---- *)
+Definition p_gx : str := [47; 103; 47; 120]%N.                          (* /g/x *)
+Example C11_ex_below_file :
+  cwf_seq 0 (c11_base, m_init, []) [(BIG, Create p_gx); (BIG + 1, Mkdir p_gx 493); (BIG + 2, OpenFile p_gx 66 420); (BIG + 3, Rename p_df p_gx)] = true /\
+  snd (cache_step m_step m_step 0 BIG (c11_base, m_init, []) (Create p_gx)) = RErr (EW KENOTDIR) /\
+  (let '((sb, sl, _), r) := cache_step m_step m_step 0 BIG (c11_base, m_init, []) (Rename p_df p_gx) in
+   (r, map e_path (snapshot sb), map e_path (snapshot sl))) =
+  (RErr (EW KENOTDIR), [[47]; [47;100]; [47;100;47;102]; [47;101]; [47;103]]%N, [[47]; [47;100]; [47;100;47;102]]%N).
+Proof. vm_compute. repeat split; reflexivity. Qed.
